@@ -675,7 +675,8 @@ func checkTypedKey(p *Prog, r *Report, kp func(string, string) string, kt *types
 	if bsFn := p.MethodOf(kt, "ByteSlices"); bsFn != nil {
 		o := NewOrigin(p, bsFn)
 		t := o.Of(returnsOf(bsFn)[0].Results[0])
-		for i, e := range t.Args {
+		bsElems, _ := sliceLiteralElements(t)
+		for i, e := range bsElems {
 			if i >= len(comps) {
 				break
 			}
